@@ -26,7 +26,7 @@ ASSUMPTIONS = ["the integral itself is sedfitter's own Filter.rebin used in isol
                'fit agreement is judged by model name within a first-order perturbation bound; models whose prediction is within 10 delta of a limit point are skipped']
 PROBES = ['crash_rerun', 'crash_left_partial_file', 'subset_calls', 'overwrite_call', 'mixed_grid', 'v1_v2_compared', 'fits_compared',
           'multi_aperture', 'gz_package', 'subdir_package', 'f4_storage', 'limit_skipped', 'tie_group', 'singular_skipped',
-          'consumer_between_convolver_calls', 'remove_resolved', 'bystander_fitter_alive', 'same_filter_objects_in_several_calls', 'filter_in_decreasing_frequency']
+          'consumer_between_convolver_calls', 'remove_resolved', 'bystander_fitter_alive', 'same_filter_objects_in_several_calls', 'filter_in_decreasing_frequency', 'sed_with_a_hole']
 
 
 def budgets(tier):
@@ -47,6 +47,9 @@ def generate(rng, tier, idx):
         w['n_models'] = min(w['n_models'], 3)
     if w['n_models'] > 1 and rng.random() < 0.15:
         w['mixed'] = rng.randrange(w['n_models'])
+    if w['n_models'] > 1 and rng.random() < 0.1:
+        # one model SED with a hole (NaN / inf in one channel), inside or outside the filter bands
+        w['sed_hole'] = [rng.randrange(w['n_models']), rng.randrange(1000), rng.choice(['flux', 'error', 'both']), rng.choice(['nan', 'nan', 'inf'])]
     formats = [1] if w['mixed'] is not None else [1, 2]
     nf = len(w['filters'])
     calls = []
@@ -153,9 +156,10 @@ def _rel(a, b):
     """largest relative deviation of a from b; exact zeros agree"""
     a = np.asarray(a, float)
     b = np.asarray(b, float)
-    d = np.abs(a - b)
     with np.errstate(all='ignore'):
-        r = np.where(d == 0, 0.0, d / np.abs(b))
+        d = np.abs(a - b)
+        r = np.where((d == 0) | (a == b) | (np.isnan(a) & np.isnan(b)), 0.0, d / np.abs(b))
+        r = np.where(np.isnan(a) ^ np.isnan(b), np.inf, r)         # a hole on one side only
     return float(np.max(r)) if r.size else 0.0
 
 
@@ -182,6 +186,8 @@ def _execute(sc, sim, out):
         out.probe('multi_aperture')
     if spec['mixed'] is not None:
         out.probe('mixed_grid')
+    if spec.get('sed_hole'):
+        out.probe('sed_with_a_hole')
     if any(f.get('desc') for f in spec['filters']):
         out.probe('filter_in_decreasing_frequency')
     trace = [tuple(sc['formats']), min(W.n_ap, 2), spec['dtype'], bool(spec['gz']), bool(spec['subdir']), spec['mixed'] is not None]
@@ -414,6 +420,12 @@ def _execute(sc, sim, out):
                     c2, a2, s2, mf2 = res['v2'][nm]
                     rs = np.abs(lf - mf2)
                     near = any(valid[j] in (2, 3) and rs[j] < 10 * max(d12, dstore) + 1e-4 for j in range(len(valid)))
+                    fin = [bool(np.isfinite(x_)) for x_ in (res['v1'][nm][0], c2, res['v2m'][nm][0])]
+                    if len(set(fin)) > 1:
+                        out.compared('fit-agreement')
+                        out.violate('fits-differ', 'source %s model %s: chi2 is %.10g from the per-file package, %.10g from the cube package, %.10g memory-mapped (finite in one, not in another)' % (
+                            s['name'], nm, res['v1'][nm][0], c2, res['v2m'][nm][0]), key='finite')
+                        break
                     if near or not np.isfinite(c2) or c2 > 1e29 or not np.isfinite(res['v1'][nm][0]) or not np.isfinite(res['v2m'][nm][0]):
                         out.probe('limit_skipped')
                         bound_of[nm] = None
